@@ -274,6 +274,21 @@ theorem relabelFrom_map_fst (f : String → Nat → List Val) (rest : List (Stri
   | nil => intro _; rfl
   | cons o rest ih => intro pre; simp [relabelFrom, ih]
 
+theorem relabelFrom_append (f : String → Nat → List Val) (l1 l2 : List (String × List Val)) :
+    ∀ pre, relabelFrom f pre (l1 ++ l2) = relabelFrom f pre l1 ++ relabelFrom f (pre ++ l1) l2 := by
+  induction l1 with
+  | nil => intro pre; simp [relabelFrom]
+  | cons o l1 ih =>
+    intro pre
+    simp only [List.cons_append, relabelFrom, ih]
+    simp
+
+theorem relabelFrom_length (f : String → Nat → List Val) (rest : List (String × List Val)) :
+    ∀ pre, (relabelFrom f pre rest).length = rest.length := by
+  induction rest with
+  | nil => intro _; rfl
+  | cons o rest ih => intro pre; simp [relabelFrom, ih]
+
 theorem mem_relabelFrom (f : String → Nat → List Val) (rest : List (String × List Val)) :
     ∀ pre o', o' ∈ relabelFrom f pre rest → ∃ o ∈ rest, ∃ n, o' = (o.1, f o.1 n) := by
   induction rest with
@@ -541,22 +556,60 @@ theorem nestedJoin_readOrder (a : AssocStmt) (ha : a ∈ popAssocs ss) :
   nestedJoin_congr a _ _ _ _ (rawRows_readOrder_length ss order _) (rawRows_readOrder_length ss order _)
     (fun i j s s' t t' hs hs' ht ht' => matches_readOrder ss order g a ha i j s s' t t' hs hs' ht ht')
 
+theorem referredFirst_read (a : AssocStmt) (ha : a ∈ popAssocs ss) (pre : List (String × List Val))
+    (o : String × List Val) (suf : List (String × List Val)) (horder : order = pre ++ o :: suf)
+    (pre' : List (String × List Val)) (o' : String × List Val)
+    (hpre : pre' = relabelFrom (readArgs ss order) [] pre)
+    (ho' : o' = (o.1, readArgs ss order o.1 (countKind pre o.1))) (hk : o'.1 = a.tgtKind) :
+    ∀ s' ∈ rawRows ss pre' a.srcKind, matchesB a s' (rawRow ss o') = false := by
+  intro s' hs'
+  have hko : o.1 = a.tgtKind := by rw [← hk, ho']
+  rw [hpre, rawRows_relabelFrom] at hs'
+  obtain ⟨m, hm, rfl⟩ := List.mem_map.mp hs'
+  have hmlt : m < (rawRows ss pre a.srcKind).length := by
+    rw [rawRows_length]; simpa using hm
+  have hsraw : (rawRows ss order a.srcKind)[m]? = some (rawRows ss pre a.srcKind)[m] := by
+    have e : rawRows ss order a.srcKind = rawRows ss pre a.srcKind ++ rawRows ss (o :: suf) a.srcKind := by
+      rw [horder, rawRows_append]
+    rw [e, List.getElem?_append_left hmlt]
+    exact List.getElem?_eq_getElem hmlt
+  have htraw : (rawRows ss order a.tgtKind)[countKind pre a.tgtKind]? = some (rawRow ss o) := by
+    have e : rawRows ss order a.tgtKind = rawRows ss pre a.tgtKind ++ (rawRow ss o :: rawRows ss suf a.tgtKind) := by
+      rw [horder, rawRows_append, rawRows_cons, if_pos hko]; rfl
+    rw [e, List.getElem?_append_right (by rw [rawRows_length]; exact Nat.le_refl _)]
+    simp [rawRows_length]
+  have hmr := matches_read ss order g a ha m _ _ _ hsraw htraw
+  have hc0 : countKind ([] : List (String × List Val)) a.srcKind = 0 := rfl
+  rw [ho', hko, hc0, Nat.zero_add, hmr]
+  exact g.referredFirst a ha pre o suf horder hko _ (List.getElem_mem hmlt)
+
 theorem apiGuards_readOrder : ApiGuards ss (readOrder ss order) := by
   have hfst : (readOrder ss order).map (·.1) = order.map (·.1) := relabelFrom_map_fst _ _ _
   refine ⟨g.schemaOnly, g.accepted, g.keys, g.noChain, g.srcDeclared, g.resolves, ?_, ?_, ?_, ?_⟩
   · intro o' ho'
     obtain ⟨o, ho, n, rfl⟩ := mem_relabelFrom _ _ _ _ ho'
     exact ⟨(g.declared o ho).1, by simp [readArgs]⟩
-  · intro a ha pre' o' suf' hord hk r' hr'
-    have hmap : order.map (·.1) = pre'.map (·.1) ++ o'.1 :: suf'.map (·.1) := by
-      rw [← hfst, hord]; simp
-    obtain ⟨l1, l2, hl, _, h2⟩ := List.map_eq_append_iff.mp hmap
-    obtain ⟨o, suf, hl2, ho, hsuf⟩ := List.map_eq_cons_iff.mp h2
-    have hr1 : r'.1 ∈ suf.map (·.1) := by
-      rw [hsuf]; exact List.mem_map.mpr ⟨r', hr', rfl⟩
-    obtain ⟨r, hr, hrk⟩ := List.mem_map.mp hr1
-    rw [← hrk]
-    exact g.referredFirst a ha l1 o suf (by rw [hl, hl2]) (by rw [ho]; exact hk) r hr
+  · intro a ha pre' o' suf' hord hk s' hs'
+    -- align the decomposition of the read rows with one of the rows as written
+    have hlen : (readOrder ss order).length = order.length := relabelFrom_length _ _ _
+    have hn : pre'.length ≤ order.length := by
+      rw [← hlen, hord]; simp
+    have hsplit : readOrder ss order = relabelFrom (readArgs ss order) [] (order.take pre'.length) ++
+        relabelFrom (readArgs ss order) (order.take pre'.length) (order.drop pre'.length) := by
+      have := relabelFrom_append (readArgs ss order) (order.take pre'.length) (order.drop pre'.length) []
+      rw [List.take_append_drop, List.nil_append] at this
+      exact this
+    rw [hsplit] at hord
+    obtain ⟨hpre, hrest⟩ := List.append_inj hord (by rw [relabelFrom_length, List.length_take]; omega)
+    cases hdrop : order.drop pre'.length with
+    | nil => rw [hdrop] at hrest; simp [relabelFrom] at hrest
+    | cons o suf =>
+      rw [hdrop] at hrest
+      simp only [relabelFrom, List.cons.injEq] at hrest
+      obtain ⟨ho', _⟩ := hrest
+      have horder : order = order.take pre'.length ++ o :: suf := by
+        rw [← hdrop, List.take_append_drop]
+      exact referredFirst_read ss order g a ha (order.take pre'.length) o suf horder pre' o' hpre.symm ho'.symm hk s' hs'
   · intro a ha hsm t' ht'
     obtain ⟨j, hj⟩ := List.getElem?_of_mem ht'
     have hjlt := (getElem?_readOrder ss order _ j t' hj).2
